@@ -41,7 +41,15 @@ def do_stream(n, payload, typ, tail, cut):
     d, sent, nxt, term = feed(stream, cut)
     if typ == 36 and any(b >= 128 for b in payload):
         return True                                         # non-ascii text: utf-8 validity is outside this claim
-    valid = typ == 44 or (typ == 126 and n == 0) or typ == 36 or (typ == 35 and n >= 1 and all(48 <= b <= 57 for b in payload))
+    if typ == 35 and not (n >= 1 and all(48 <= b <= 57 for b in payload)):
+        # an integer payload that is not plain digits (dump never writes one): the property only asks for agreement with the
+        # non-streaming parser, which leaves the verdict to int() (so ' 0' or '+1' are integers for both, ' ' or 'x' for neither)
+        try:
+            want = int(bytes(bytearray([concretize(b, 256) for b in payload])))   # tnetstrings.parse_payload: `int(payload)`, on solver-enumerated concrete bytes
+        except Exception:
+            return not term
+        return term and sent == len(msg) and nxt == (tail[0] if tail else None) and d.tnet.type.input == want
+    valid = typ == 44 or (typ == 126 and n == 0) or typ == 36 or typ == 35
     if not valid:
         return not term                                     # never reported as a complete message
     ok = term and sent == len(msg) and nxt == (tail[0] if tail else None)
@@ -76,7 +84,7 @@ for n in (0, 1, 2, 3, 5):
         if tname == 'int':
             pre.append(" and ".join(('48 <= %s <= 57' if k == 0 else '48 <= %s <= 50') % p for k, p in enumerate(ps)) or 'True')
         if tname == 'int_nondigit':
-            pre.append('(32 <= p0 < 48 or 57 < p0 <= 70)' + (' and 48 <= p1 <= 57' if n > 1 else ''))
+            pre.append('(32 <= p0 < 48 or 57 < p0 <= 70)' + (' and 48 <= p1 <= 49' if n > 1 else ''))
         define(globals(), 'C20', 'stream_size%d_%s' % (n, tname), params,
                "return do_stream(%d, [%s], %s, [t0], cut)" % (n, ", ".join(ps), 'typ' if tcode is None else tcode), pre,
                tier='quick' if (n, tname) in QUICK_STREAM else 'thorough',
